@@ -176,20 +176,20 @@ Qed.
 Lemma register_ok sc n x sc' : register sc n x = DOk sc' -> has n sc = false /\ sc' = (n, x) :: sc.
 Proof. unfold register. destruct (has n sc); [discriminate|]. intro H. injection H as <-. auto. Qed.
 
-Lemma resource_decl_eq l i ms :
-  resource_decl l i ms =
+Lemma resource_decl_eq dup l i ms :
+  resource_decl dup l i ms =
   (do cur1 <- register (l_cur l) (nm i) (TResource (snd (add_resource (l_types l) (mkres (nm i) None)))) ;;
-   if has (nm i) (l_exts l) then DPanic 7 else
+   if has (nm i) (l_exts l) then DErr dup else
    do (exts, t2) <- methods_go cur1 (nm i) (snd (add_resource (l_types l) (mkres (nm i) None))) []
                       (l_exts l ++ [(nm i, KType (TResource (snd (add_resource (l_types l) (mkres (nm i) None)))))])
                       (fst (add_resource (l_types l) (mkres (nm i) None))) ms ;;
    DOk (mkloc cur1 (l_uses l) exts t2)).
 Proof. reflexivity. Qed.
 
-Definition item_plain (l : loc) (d : Ast.item_type_decl) : dres loc :=
+Definition item_plain (dup : derr) (l : loc) (d : Ast.item_type_decl) : dres loc :=
   do (x, t1) <- plain_decl (l_cur l) (l_types l) d ;;
   do cur1 <- register (l_cur l) (decl_name d) x ;;
-  if has (decl_name d) (l_exts l) then DPanic 8
+  if has (decl_name d) (l_exts l) then DErr dup
   else DOk (mkloc cur1 (l_uses l) (l_exts l ++ [(decl_name d, KType x)]) t1).
 
 Definition use_local (it : Ast.use_item) : str :=
@@ -274,8 +274,8 @@ Proof.
 Qed.
 
 (** [method_names] *)
-Lemma resource_decl_spec l i ms l' :
-  resource_decl l i ms = DOk l' ->
+Lemma resource_decl_spec dup l i ms l' :
+  resource_decl dup l i ms = DOk l' ->
   let n := nm i in
   let r := mkid (t_tag (l_types l)) (length (t_resources (l_types l))) in
   frame (l_types l) (l_types l') /\
@@ -297,11 +297,11 @@ Proof.
   split; [reflexivity|]. split; [reflexivity|]. exists fs. rewrite <- app_assoc. auto.
 Qed.
 
-Lemma item_type_decl_frame l d l' : item_type_decl l d = DOk l' ->
+Lemma item_type_decl_frame dup l d l' : item_type_decl dup l d = DOk l' ->
   frame (l_types l) (l_types l') /\ (leafx (l_exts l) = true -> leafx (l_exts l') = true).
 Proof.
   intro H.
-  assert (Hp : forall d0, item_plain l d0 = DOk l' ->
+  assert (Hp : forall d0, item_plain dup l d0 = DOk l' ->
                           frame (l_types l) (l_types l') /\ (leafx (l_exts l) = true -> leafx (l_exts l') = true)).
   { intros d0 H0. unfold item_plain in H0. dinv H0 as [[x t1] [E1 H0]]. dinv H0 as [cur1 [E2 H0]].
     destruct (has _ (l_exts l)); [discriminate|]. injection H0 as <-. cbn [l_types l_exts].
@@ -310,7 +310,7 @@ Proof.
   destruct d as [docs id ms|docs id cs|docs id fs|docs id fl|docs id cs|docs id k];
     [|apply (Hp (Ast.DVariant docs id cs) H)|apply (Hp (Ast.DRecord docs id fs) H)|apply (Hp (Ast.DFlags docs id fl) H)
      |apply (Hp (Ast.DEnum docs id cs) H)|apply (Hp (Ast.DAlias docs id k) H)].
-  cbn [item_type_decl] in H. destruct (resource_decl_spec _ _ _ _ H) as [X1 [_ [_ [_ [fs [-> [_ Hf]]]]]]].
+  cbn [item_type_decl] in H. destruct (resource_decl_spec _ _ _ _ _ H) as [X1 [_ [_ [_ [fs [-> [_ Hf]]]]]]].
   split; [exact X1|]. intro Hx. rewrite leafx_app, Hx. unfold leafx at 1. cbn [forallb snd leafk andb].
   eapply member_fn_leaf; exact Hf.
 Qed.
@@ -556,7 +556,7 @@ Proof.
     destruct Hw as [Hf Hx]. destruct it as [u|d|docs p|docs p|docs r its].
     + dinv E1 as [l [E0 E1]]. injection E1 as <-. destruct (use_type_leaf _ _ _ _ _ E0) as [Ht _].
       unfold wflat, w_types in *. cbn [w_loc w_exp]. split; [rewrite Ht; exact Hf | exact Hx].
-    + dinv E1 as [l [E0 E1]]. injection E1 as <-. destruct (item_type_decl_frame _ _ _ E0) as [X1 _].
+    + dinv E1 as [l [E0 E1]]. injection E1 as <-. destruct (item_type_decl_frame _ _ _ _ E0) as [X1 _].
       unfold wflat, w_types in *. cbn [w_loc w_exp]. split; [eapply flat_frame; eassumption | exact Hx].
     + eapply world_item_path_flat; [split; eassumption | exact E1].
     + eapply world_item_path_flat; [split; eassumption | exact E1].
